@@ -57,11 +57,13 @@ theorem msgRefField_panic (c : Ctx) (hc : WfCtx c) (pkg schema ext : Str) (rules
     cases o <;> simp_all
 
 theorem enumFieldWith_panic (pre walk : Eff) (tn pfx : Str) (names : List Str) (rules : Rules)
-    (lr : Bool) (h1 : pre.panic = false) (h2 : walk.panic = false) :
+    (lr : Option (List Str)) (h1 : pre.panic = false) (h2 : walk.panic = false) :
     (enumFieldWith pre walk tn pfx names rules lr).eff.panic = false ∧
       (enumFieldWith pre walk tn pfx names rules lr).walk.panic = false := by
   unfold enumFieldWith
-  split <;> simp [h1, h2]
+  split
+  · simp [h1, h2]
+  · split <;> simp [h1, h2]
 
 theorem scalarField_panic (f : Field) (b : BF)
     (h : scalarField f = some b) : b.eff.panic = false ∧ b.walk.panic = false := by
